@@ -856,7 +856,9 @@ func c05UsesHeaderValue(srcs []hdrSource) bool {
 // the result buffer), the constructs that write output bytes 2..3.
 func c05HeaderSources(p *core.Prog, t c05Type, hdrMarshal *ssa.Function) []hdrSource {
 	var out []hdrSource
-	root := t.marshal
+	// a Marshal that only hands its fields to a shared helper (`return marshalX(p.Header(), ...)`): the header
+	// write is looked for in that helper, which the numeric engine evaluates in Marshal's context
+	root := tailCallee(p, t.marshal, 2)
 	inLoop := loopBlocks(root)
 	returned := returnedBuffers(root)
 	for _, b := range root.Blocks {
@@ -945,6 +947,43 @@ func loopBlocks(fn *ssa.Function) map[*ssa.BasicBlock]bool {
 
 // returnedBuffers: values that are (phi-)equal to the first result of a
 // non-error return of fn.
+// tailCallee: if every return of fn that can succeed returns the results of one and the same call of a
+// function of the package (a tail call), that function (followed up to depth levels); otherwise fn.
+func tailCallee(p *core.Prog, fn *ssa.Function, depth int) *ssa.Function {
+	if depth == 0 {
+		return fn
+	}
+	var call *ssa.Call
+	for _, b := range fn.Blocks {
+		ret, ok := b.Instrs[len(b.Instrs)-1].(*ssa.Return)
+		if !ok || len(ret.Results) == 0 {
+			continue
+		}
+		if c, ok := ret.Results[0].(*ssa.Const); ok && c.IsNil() {
+			continue
+		}
+		var src *ssa.Call
+		switch x := ret.Results[0].(type) {
+		case *ssa.Extract:
+			src, _ = x.Tuple.(*ssa.Call)
+		case *ssa.Call:
+			src = x
+		}
+		if src == nil || (call != nil && call != src) {
+			return fn
+		}
+		call = src
+	}
+	if call == nil {
+		return fn
+	}
+	g := call.Common().StaticCallee()
+	if g == nil || g.Pkg != p.SPkg || g.Blocks == nil {
+		return fn
+	}
+	return tailCallee(p, g, depth-1)
+}
+
 func returnedBuffers(fn *ssa.Function) map[ssa.Value]bool {
 	out := map[ssa.Value]bool{}
 	var add func(v ssa.Value, d int)
@@ -1017,10 +1056,12 @@ func headerFlowsToResult(call *ssa.Call, returned map[ssa.Value]bool) (bool, str
 			switch b.Name() {
 			case "copy":
 				dst := c.Common().Args[0]
+				orig := dst
 				if sl, ok := dst.(*ssa.Slice); ok && (sl.Low == nil || isConstInt(sl.Low, 0)) {
 					dst = sl.X
 				}
-				if c.Common().Args[1] == h && returned[dst] {
+				// (a buffer made with a constant size is itself `new [N]byte` sliced from 0)
+				if c.Common().Args[1] == h && (returned[dst] || returned[orig]) {
 					return true, "copy(out, header) with out the returned buffer"
 				}
 			case "append":
